@@ -225,13 +225,21 @@ func checkC18(c *Ctx) {
 	ts := tss[0]
 	c.Exhaustive("C18.exh", ts, "Effect")
 
+	isStoreFn := func(f *ssa.Function) bool {
+		return FuncNameIs(f, "(*"+pkgState+".RegMap).Store") || FuncNameIs(f, "("+pkgMemory+".MemMap).Store")
+	}
+	// helpers of Apply in its package are followed (the stores themselves are not)
+	enter := func(g *ssa.Function) bool { return SamePackage(apply)(g) && !isStoreFn(g) }
 	isStateStore := func(in ssa.Instruction) bool {
 		ci, ok := in.(ssa.CallInstruction)
 		if !ok {
 			return false
 		}
 		f := Callee(ci.Common())
-		return FuncNameIs(f, "(*"+pkgState+".RegMap).Store") || FuncNameIs(f, "("+pkgMemory+".MemMap).Store") || reachesStateStore(c, f, 0)
+		if _, isCall := in.(*ssa.Call); isCall && enter(f) {
+			return false // followed: its own instructions are on the walk
+		}
+		return isStoreFn(f) || reachesStateStore(c, f, 0)
 	}
 	// Apply walked concretely (E7) for every kind of effect and both answers of
 	// "the folded address is a constant": a walk that returns false must not
@@ -239,18 +247,21 @@ func checkC18(c *Ctx) {
 	// literal, a named result, a flag)
 	nFalse := 0
 	var kinds []string
-	for name := range ts.Cases {
-		kinds = append(kinds, name)
+	for _, n := range c.Prog.Implementers("Effect") {
+		kinds = append(kinds, n.Obj().Name())
 	}
+	effectT := c.Prog.LookupType(ExprPkg, "Effect")
 	sort.Strings(kinds)
 	for _, kind := range kinds {
 		for _, isConst := range []bool{true, false} {
 			kind, isConst := kind, isConst
 			vl := &Valuation{
+				Enter: enter,
 				Bool: func(v ssa.Value) (bool, bool) {
 					if ex, ok := v.(*ssa.Extract); ok && ex.Index == 1 {
 						if ta, ok := ex.Tuple.(*ssa.TypeAssert); ok {
-							if ta.X == ts.X {
+							// the one effect being applied, wherever its kind is asked
+							if ta.X == ts.X || (effectT != nil && NamedOf(ta.X.Type()) == effectT) {
 								if an, ok := ta.AssertedType.(*types.Named); ok {
 									return an.Obj().Name() == kind, true
 								}
@@ -297,46 +308,96 @@ func checkC18(c *Ctx) {
 	c.RequireCount("C18.refuse", nFalse, 1)
 
 	// --- C18.args
-	memE := ts.CaseValue("MemStore")
-	regE := ts.CaseValue("RegStore")
+	// the effect being applied, seen from Apply or from a helper it is handed to:
+	// the value of the case for its kind, or a parameter that receives that
+	// value at every call
+	var isApplied func(v ssa.Value, kind string, depth int) bool
+	isApplied = func(v ssa.Value, kind string, depth int) bool {
+		v = Unwrap(v)
+		if v == nil || depth > 3 || !TypeNameIs(v.Type(), "pkg/expr."+kind) {
+			return false
+		}
+		if v == ts.CaseValue(kind) {
+			return true
+		}
+		switch x := v.(type) {
+		case *ssa.Extract:
+			ta, ok := x.Tuple.(*ssa.TypeAssert)
+			return ok && x.Index == 0 && effectT != nil && NamedOf(ta.X.Type()) == effectT
+		case *ssa.TypeAssert:
+			return effectT != nil && NamedOf(x.X.Type()) == effectT
+		case *ssa.Parameter:
+			g := x.Parent()
+			idx := -1
+			for i, p := range g.Params {
+				if p == x {
+					idx = i
+				}
+			}
+			n := 0
+			for _, site := range c.Prog.CallersOf(g) {
+				n++
+				if idx >= len(site.Common().Args) || !isApplied(site.Common().Args[idx], kind, depth+1) {
+					return false
+				}
+			}
+			return n > 0 && g.Pkg == apply.Pkg && g.Object() != nil && !g.Object().Exported()
+		}
+		return false
+	}
+	var applyFns []*ssa.Function
+	seenFn := map[*ssa.Function]bool{}
+	var collectFns func(f *ssa.Function, depth int)
+	collectFns = func(f *ssa.Function, depth int) {
+		if f == nil || f.Blocks == nil || seenFn[f] || depth > 3 || !(f == apply || enter(f)) {
+			return
+		}
+		seenFn[f] = true
+		applyFns = append(applyFns, f)
+		for _, cs := range Calls(f) {
+			collectFns(Callee(cs.Common()), depth+1)
+		}
+	}
+	collectFns(apply, 0)
 	nArgs := 0
-	for _, cs := range Calls(apply) {
-		f := Callee(cs.Common())
-		switch {
-		case FuncNameIs(f, "("+pkgMemory+".MemMap).Store"):
-			nArgs++
-			key := ShortName(apply) + "/Mems.Store"
-			a := cs.Common().Args // recv, key, addr, value, width
-			same := func(v ssa.Value) bool { return v == memE }
-			acc := func(name string) Pat {
-				return Method(name, func(v ssa.Value, _ *Bind) bool { return same(Unwrap(v)) })
-			}
-			addrPat := Conv(ExtractN(0, CallTo("pkg/expr.ConstUint",
-				TypeAssertOf("pkg/expr.Const", CallTo(pkgXform+".ConstFold", acc("Addr"))))))
-			ok1 := matches(a[1], acc("Key"))
-			ok2 := matches(a[2], addrPat)
-			ok3 := matches(a[3], acc("Value"))
-			ok4 := matches(a[4], acc("Width"))
-			// the Const assertion must be checked (refusal) before use
+	for _, fn := range applyFns {
+		for _, cs := range Calls(fn) {
+			f := Callee(cs.Common())
 			switch {
-			case memE == nil || !(ok1 && ok3 && ok4):
-				c.Fail("C18.args", key, c.Prog.Pos(cs.Pos()), "MemMap.Store must receive Key(), Value(), Width() of the MemStore being applied")
-			case !ok2:
-				c.Fail("C18.args", key, c.Prog.Pos(cs.Pos()), "address is not ConstUint(ConstFold(e.Addr()).(Const)) of the MemStore being applied")
-			default:
-				c.Pass("C18.args", key, c.Prog.Pos(cs.Pos()), "")
-			}
-		case FuncNameIs(f, "(*"+pkgState+".RegMap).Store"):
-			nArgs++
-			key := ShortName(apply) + "/Regs.Store"
-			a := cs.Common().Args // recv, key, value, width
-			acc := func(name string) Pat {
-				return Method(name, func(v ssa.Value, _ *Bind) bool { return Unwrap(v) == regE })
-			}
-			if regE != nil && matches(a[1], acc("Key")) && matches(a[2], acc("Value")) && matches(a[3], acc("Width")) {
-				c.Pass("C18.args", key, c.Prog.Pos(cs.Pos()), "")
-			} else {
-				c.Fail("C18.args", key, c.Prog.Pos(cs.Pos()), "RegMap.Store must receive Key(), Value(), Width() of the RegStore being applied")
+			case FuncNameIs(f, "("+pkgMemory+".MemMap).Store"):
+				nArgs++
+				key := ShortName(apply) + "/Mems.Store"
+				a := cs.Common().Args // recv, key, addr, value, width
+				acc := func(name string) Pat {
+					return Method(name, func(v ssa.Value, _ *Bind) bool { return isApplied(v, "MemStore", 0) })
+				}
+				addrPat := Conv(ExtractN(0, CallTo("pkg/expr.ConstUint",
+					TypeAssertOf("pkg/expr.Const", CallTo(pkgXform+".ConstFold", acc("Addr"))))))
+				ok1 := matches(a[1], acc("Key"))
+				ok2 := matches(a[2], addrPat)
+				ok3 := matches(a[3], acc("Value"))
+				ok4 := matches(a[4], acc("Width"))
+				// the Const assertion must be checked (refusal) before use
+				switch {
+				case !(ok1 && ok3 && ok4):
+					c.Fail("C18.args", key, c.Prog.Pos(cs.Pos()), "MemMap.Store must receive Key(), Value(), Width() of the MemStore being applied")
+				case !ok2:
+					c.Fail("C18.args", key, c.Prog.Pos(cs.Pos()), "address is not ConstUint(ConstFold(e.Addr()).(Const)) of the MemStore being applied")
+				default:
+					c.Pass("C18.args", key, c.Prog.Pos(cs.Pos()), "")
+				}
+			case FuncNameIs(f, "(*"+pkgState+".RegMap).Store"):
+				nArgs++
+				key := ShortName(apply) + "/Regs.Store"
+				a := cs.Common().Args // recv, key, value, width
+				acc := func(name string) Pat {
+					return Method(name, func(v ssa.Value, _ *Bind) bool { return isApplied(v, "RegStore", 0) })
+				}
+				if matches(a[1], acc("Key")) && matches(a[2], acc("Value")) && matches(a[3], acc("Width")) {
+					c.Pass("C18.args", key, c.Prog.Pos(cs.Pos()), "")
+				} else {
+					c.Fail("C18.args", key, c.Prog.Pos(cs.Pos()), "RegMap.Store must receive Key(), Value(), Width() of the RegStore being applied")
+				}
 			}
 		}
 	}
